@@ -107,6 +107,13 @@ RowSat(a) ==
                  ((Sat(a, c) /\ dp[c] \notin {"T", "AMB"}) \/ (~Sat(a, c) /\ dp[c] # "O"))
             THEN "applicable_iff_sat.cls" \o ToString(CHOOSE c \in 1..NC : dp[c] # "skip" /\
                  ((Sat(a, c) /\ dp[c] \notin {"T", "AMB"}) \/ (~Sat(a, c) /\ dp[c] # "O")))
+       \* the method alone with its parameter optional: "O" stands for the 'No method' error
+       ELSE IF "dispatch_alone" \in DOMAIN Tab.rows[a] /\
+               \E c \in 1..NC : LET da == Tab.rows[a].dispatch_alone IN
+                     da[c] # "skip" /\ ((Sat(a, c) /\ da[c] # "T") \/ (~Sat(a, c) /\ da[c] # "O"))
+            THEN "applicable_iff_sat.alone_optional.cls" \o ToString(CHOOSE c \in 1..NC :
+                     LET da == Tab.rows[a].dispatch_alone IN
+                     da[c] # "skip" /\ ((Sat(a, c) /\ da[c] # "T") \/ (~Sat(a, c) /\ da[c] # "O")))
        ELSE ""
 
 RECURSIVE RowClauses(_, _, _)
